@@ -32,6 +32,8 @@ CHECKS = {
          "Held on generated histories of body/cell/template image additions of three formats with hostile names and all size configurations, interleaved with other relationship-creating calls, save/open cycles and opened foreign packages carrying media."),
  "C15": ("exploration", "per-call ledgers (list requests, per-document note ledger, heading list) compared with what an independent reader resolves in the saved package: numId->num->abstractNum->lvl, notes parts per document, entries of the TOC control; counts and removal results compared at the API", "4/C15",
          "Held on generated list/note/TOC call sequences on new and reopened documents, one and several live documents, all list types/symbols/levels -1..25/start numbers, MaxLevel 1-9, update and regenerate."),
+ "C07": ("exploration", "differential monitor (every script alone vs after / interleaved with / concurrent to other scripts: canonical packages and accessor results) + Go race detector over the concurrent workload, reports keyed by innermost library function pair", "3.5, 4/C07",
+         "Held on generated groups of 2-8 scripts on distinct documents in three schedules (sequential, call-interleaved, goroutines with yields at hook points); the race binary observed no report on the interleavings that occurred."),
 }
 PENDING = {}
 ALL = ["C%02d" % i for i in range(1, 21)]
